@@ -91,6 +91,11 @@ func C06CsvOld() {
 	cols := []Column{{Name: "a"}, {Name: "b"}}[:ncols]
 	decl := &FileDecl{Delimiter: ",", Columns: cols}
 	withHeader := zz.NondetBool("withHeader")
+	if withHeader && zz.NondetBool("aliased") {
+		// an alias renames the output field; the header row is still checked against the name
+		al := "c"
+		cols[0].Alias = &al
+	}
 	hdr := 0
 	if withHeader {
 		hdr = 1 + zz.NondetChoice("hdr", 2)
